@@ -113,6 +113,13 @@ func scenarios(cfg out.Config, r *rng.R, raceMode bool) []scenario {
 	add("corpus", "GET", 1, reqB, "lower-get", "head") // all GET/HEAD by ToUpper: out of scope, body dropped
 	add("corpus", "OPTIONS", 1, reqB, "plain", "head")
 	add("corpus", "GET", 1, reqGqlNames, "gql-get", "plain", "qf")
+	// a client GET that carries a body, all backends GET/HEAD (one shared reader, Close has an
+	// effect): one plain backend next to GraphQL query siblings
+	add("corpus", "GET", 1, reqB, "gql-post", "plain")
+	add("corpus", "GET", 1, reqB, "plain", "gql-get")
+	add("corpus", "GET", 1, reqB, "gql-post-long", "hf", "gql-get-qf")
+	add("corpus", "GET", 1, reqB, "gql-get", "gql-post", "head")
+	add("corpus", "HEAD", 1, reqB, "gql-post-none", "gql-get")
 	// several GraphQL POST-transport siblings under shallow clones (backend method GET), bodies
 	// of different lengths, client Content-Length / Content-Type present
 	add("corpus", "GET", 1, reqCL, "gql-post", "gql-post-long")
